@@ -540,8 +540,86 @@ def samplers_steered(ctx):
                 ctx.case(("steered", dname, gname, n, B, tuple(zs[:4])))
 
 
+GEO_SIZES = [3, 12, 25, 26, 40, 100]
+GEO_BOXES = [(0.0, 1.0), (10.0, 11.0), (100.0, 101.0), (-1.0, 3.0), (1000.0, 1001.0)]
+
+
+def exact_dist64(locs):
+    """pairwise Euclidean distances recomputed in float64 from the emitted float32 coordinates"""
+    x = locs.double()
+    return (x[..., :, None, :] - x[..., None, :, :]).pow(2).sum(-1).sqrt()
+
+
+def routing_geometry(ctx):
+    """generators that emit *derived geometric fields* (FLP `orig_distances`, OP distance prizes), at sizes beyond 25 points
+    and in coordinate boxes away from the origin — where fast pairwise-distance kernels lose digits — checked against an
+    exact recomputation: zero diagonal, symmetry, relative error of a few float32 ulps; on integral point sets bit-exact"""
+    from rl4co.envs.graph.flp.generator import FLPGenerator
+    from rl4co.envs.routing.op.generator import OPGenerator
+
+    rng = ctx.rng
+    combos = [(n, bx) for n in GEO_SIZES for bx in GEO_BOXES]
+    rng.shuffle(combos)
+    for n, (lo, hi) in combos[: ctx.budget(14, 30)]:
+        B = rng.choice([1, 2])
+        seed = rng.randrange(1 << 30)
+        seed_all(seed)
+        params = dict(num_loc=n, min_loc=lo, max_loc=hi, seed=seed)
+        with quiet():
+            td = FLPGenerator(num_loc=n, min_loc=lo, max_loc=hi, to_choose=min(3, n))([B])
+        D = td["orig_distances"].double()
+        E = exact_dist64(td["locs"])
+        ctx.count(f"geometry:flp:n={'≤25' if n <= 25 else '>25'}:box={'unit' if lo == 0 else 'shifted'}")
+        diag = torch.diagonal(D, dim1=-2, dim2=-1)
+        if bool((diag != 0).any()):
+            V(ctx, "flp-orig-distances-diagonal-nonzero", f"FLP generator: a location is at distance {float(diag.abs().max()):.3g} from itself "
+              f"(n={n}, box [{lo},{hi}])", {"params": params})
+        if bool((D != D.transpose(-1, -2)).any()):
+            V(ctx, "flp-orig-distances-asymmetric", f"FLP generator: orig_distances is not symmetric (n={n}, box [{lo},{hi}])", {"params": params})
+        err = (D - E).abs()
+        tol = 4e-7 * E + 1e-12
+        if bool((err > tol).any()):
+            idx = (err - tol).flatten().argmax().item()
+            V(ctx, "flp-orig-distances-inexact", f"FLP generator: orig_distances deviates from the Euclidean distance of the emitted coordinates by "
+              f"{float(err.flatten()[idx]):.3g} (true {float(E.flatten()[idx]):.6g}; n={n}, box [{lo},{hi}])", {"params": params})
+        ctx.case(("geo-flp", n, lo, hi, seed))
+        # OP distance prizes recomputed from the emitted coordinates
+        if lo in (0.0, 10.0, 100.0):
+            with quiet():
+                tdo = OPGenerator(num_loc=n, min_loc=lo, max_loc=hi, prize_type="dist")([B])
+            d = (tdo["locs"].double() - tdo["depot"].double()[:, None]).pow(2).sum(-1).sqrt()
+            frac = d / d.max(-1, keepdim=True).values * 99
+            exp = (1 + frac.floor()) / 100
+            near = (frac - frac.round()).abs() < 1e-3
+            bad = ((tdo["prize"].double() - exp).abs() > 1e-6) & ~near
+            if bool(bad.any()):
+                V(ctx, "op-prize-not-distance-rank", f"OP generator (dist prizes): prize differs from (1+⌊99·d/dmax⌋)/100 of the emitted coordinates "
+                  f"(n={n}, box [{lo},{hi}])", {"params": params})
+            ctx.count("geometry:op-dist-prize", 1)
+            ctx.case(("geo-op", n, lo, hi, seed))
+    # integral point sets (all pairwise distances whole grid units), shifted by whole numbers: bit-exact
+    for n in ([26, 40] if ctx.tier == "quick" else [5, 26, 40, 100]):
+        for off in (0, 10, 100):
+            pts = [geom.gen_points(rng, n, family="cross") for _ in range(2)]
+            locs = torch.tensor([[[x / geom.GRID + off, y / geom.GRID + off] for (x, y) in p_] for p_ in pts], dtype=torch.float64).float()
+
+            class S_:
+                def sample(self, shape):
+                    return locs.clone()
+            with quiet():
+                td = FLPGenerator(num_loc=n, min_loc=float(off), max_loc=float(off + 1), to_choose=2, loc_sampler=S_())([2])
+            exp = torch.tensor([geom.dist_matrix(p_) for p_ in pts], dtype=torch.float64) / geom.GRID
+            # (coordinates off + k/1024 are exact in float32 for off ≤ 100: differences and norms are exact)
+            if not torch.equal(td["orig_distances"].double(), exp):
+                V(ctx, "flp-orig-distances-inexact", f"FLP generator on an integral point set shifted by {off}: orig_distances is not the exact integer "
+                  f"distance matrix (max error {float((td['orig_distances'].double() - exp).abs().max()):.3g}, n={n})", {"n": n, "offset": off, "points": pts[0][:4]})
+            ctx.count("geometry:flp:integral-point-set")
+            ctx.case(("geo-flp-int", n, off, tuple(pts[0][:3])))
+
+
 def run_routing(ctx):
     routing_tables(ctx)
+    guarded(ctx, "geometry", routing_geometry)
     N = ctx.budget(240, 12000)
     for it in range(N):
         taped = it % 2 == 0
@@ -618,7 +696,7 @@ def tw_cvrptw(ctx, taped: bool):
     from rl4co.envs.routing.cvrptw.generator import CVRPTWGenerator
 
     rng = ctx.rng
-    n = rng.choice([1, 2, 3, 5, 8, 13, 20, 33])
+    n = rng.choice([1, 2, 3, 5, 8, 13, 20, 33, 26, 40] + ([100] if rng.random() < 0.2 else []))   # > 25 points included
     scale = rng.random() < 0.4
     max_loc, max_time = rng.choice([(150.0, 480), (150.0, 480), (100.0, 300), (16.0, 64), (1.0, 480), (150.0, 426)])
     B = rng.choice([1, 2, 3])
@@ -770,7 +848,7 @@ def tw_mtvrp(ctx, taped: bool):
     from rl4co.envs.routing.mtvrp.generator import MTVRPGenerator, get_vehicle_capacity
 
     rng = ctx.rng
-    n = rng.choice([1, 2, 3, 5, 8, 13, 20, 21, 50])
+    n = rng.choice([1, 2, 3, 5, 8, 13, 20, 21, 26, 50] + ([100] if rng.random() < 0.2 else []))
     preset = rng.choice(MTVRP_PRESETS + [None])
     B = rng.choice([1, 2, 4])
     use_comb = True if preset != "all" else rng.random() < 0.7
@@ -868,7 +946,11 @@ def tw_mtvrp(ctx, taped: bool):
                 secs.append(f"{d.numerator} {d.denominator} {e_s['k'][bi * n + j]} {q} {e_len['k'][bi * n + j]} {q} {e_t['k'][bi * n + j]} {q}")
             if not secs:
                 continue
-            r = ask(ctx, [f"gen.mtvrptw 3 20 9 50 1 5 {T.numerator} {T.denominator} {v.numerator} {v.denominator} | " + " | ".join(secs)])[0]
+            r, rg = ask(ctx, [f"gen.mtvrptw 3 20 9 50 1 5 {T.numerator} {T.denominator} {v.numerator} {v.denominator} | " + " | ".join(secs),
+                              f"gen.mtvrptwgen {T.numerator} {T.denominator} {v.numerator} {v.denominator} | " + " | ".join(secs)])
+            if r["tw"] != rg["tw"]:   # the definition translated from the source statements (Generated/GenMtvrpTw.lean) vs the hand-written model
+                ctx.disagreement("mtvrp: Generated.twGen ≠ Gen.Mtvrp model", {"params": params, "model": r["tw"][:120], "generated": rg["tw"][:120]})
+            r = rg   # the real code is compared with the generated definition
             for j, item in zip(js, r["tw"].split(",")):
                 st, en, sv = (Fraction(int(x.split("/")[0]), int(x.split("/")[1])) for x in item.split(":"))
                 real = (tw[j + 1, 0].item(), tw[j + 1, 1].item(), td["service_time"][bi, j + 1].item())
@@ -1818,6 +1900,11 @@ def run_npz(ctx):
                 save_tensordict_to_npz(td, path, compress=compress)
                 back = load_npz_to_tensordict(path)
                 diff = td_equal(td, back)
+                # container model: key order and the batch size derived from the first stored array (`Persist.npzBatch`)
+                mb = ask(ctx, ["gen.npzbatch | " + " | ".join(" ".join(map(str, td[k].shape)) for k in td.keys())])[0]
+                if mb.get("err") != "0" or int(mb["batch"]) != back.batch_size[0] or list(back.keys()) != list(td.keys()):
+                    ctx.disagreement("npz: batch size / key order vs Gen.Persist.npzLoad", {"env": name, "model": mb["_raw"], "real": list(back.batch_size),
+                                                                                            "keys": [list(td.keys()), list(back.keys())]})
                 if diff or tuple(back.batch_size) != (B,):
                     V(ctx, f"npz-roundtrip-{name}", f"save_tensordict_to_npz → load_npz_to_tensordict changes the instance: {diff}",
                                   {"env": name, "generator_params": gp, "seed": seed})
@@ -1901,9 +1988,11 @@ def run_npz(ctx):
             np.savez(fn, **ds)
             with quiet():
                 td = cat["cvrp"](num_loc=size).load_data(fn)
-            lines = [f"gen.loaddemand {int(ds['capacity'][r_])} 1 | " + " ".join(str(int(x)) for x in ds["demand"][r_]) for r_ in range(len(ds["capacity"]))]
-            for r_, mr in enumerate(ask(ctx, lines)):
-                model = [Fraction(*map(int, t.split("/"))) for t in mr["demand"].split(",")]
+            # the whole file through the Lean loader model (`Persist.loadRows`: every row by its own capacity)
+            whole = ask(ctx, ["gen.loadrows | " + " | ".join(f"{int(ds['capacity'][r_])} 1 " + " ".join(str(int(x)) for x in ds["demand"][r_])
+                                                            for r_ in range(len(ds["capacity"])))])[0]
+            for r_, row_txt in enumerate(whole["rows"].split(";")):
+                model = [Fraction(*map(int, t.split("/"))) for t in row_txt.split(",")]
                 exp = [float(np.float32(m.numerator) / np.float32(m.denominator)) if m.denominator != 1 else float(m) for m in model]
                 exp = [float(np.float32(int(x)) / np.float32(ds["capacity"][r_])) for x in ds["demand"][r_]]
                 real = td["demand"][r_].tolist() if td["demand"].dim() == 2 else None
@@ -1980,6 +2069,43 @@ def run_npz(ctx):
 # C19 gen_pickle: deepcopy / pickle of environments
 # =================================================================================================
 
+def deep_diff(a, b, path="", depth=0, skip=()):
+    """first difference between two attribute structures (None if equal): scalars / strings by value, tensors by dtype, shape and
+    value, containers element-wise, other objects by type and (recursively, bounded) by their `__dict__`"""
+    if depth > 4:
+        return None
+    if type(a) is not type(b):
+        return f"{path}: type {type(a).__name__} vs {type(b).__name__}"
+    if isinstance(a, (int, float, str, bool, type(None), torch.dtype, torch.Size)):
+        return None if a == b or (isinstance(a, float) and a != a and b != b) else f"{path}: {a!r} vs {b!r}"
+    if torch.is_tensor(a):
+        return None if a.dtype == b.dtype and a.shape == b.shape and torch.equal(a, b) else f"{path}: tensor differs"
+    if isinstance(a, dict):
+        if set(map(str, a.keys())) != set(map(str, b.keys())):
+            return f"{path}: keys {sorted(set(map(str, a)) ^ set(map(str, b)))[:4]}"
+        for k in a:
+            if k in skip:
+                continue
+            d = deep_diff(a[k], b[k], f"{path}.{k}", depth + 1)
+            if d:
+                return d
+        return None
+    if isinstance(a, (list, tuple)):
+        if len(a) != len(b):
+            return f"{path}: length {len(a)} vs {len(b)}"
+        for j, (x, y) in enumerate(zip(a, b)):
+            d = deep_diff(x, y, f"{path}[{j}]", depth + 1)
+            if d:
+                return d
+        return None
+    if isinstance(a, torch.Generator):
+        return None if torch.equal(a.get_state(), b.get_state()) else f"{path}: generator state differs"
+    if hasattr(a, "__dict__") and not callable(a):
+        return deep_diff({k: v for k, v in vars(a).items() if not k.startswith("__")}, {k: v for k, v in vars(b).items() if not k.startswith("__")},
+                         path + "<" + type(a).__name__ + ">", depth + 1)
+    return None
+
+
 def run_pickle(ctx):
     rng = ctx.rng
     cat = G.env_catalogue()
@@ -2022,10 +2148,10 @@ def run_pickle(ctx):
                 elif how == "pickle":
                     ctx.count("pickle:unpickling-rewinds-torch-global-rng")
                 # model: setstate (getstate e) = e on the plain attributes
-                d1 = {k: v for k, v in env.__dict__.items() if isinstance(v, (int, float, str, bool, type(None)))}
-                d2 = {k: v for k, v in env2.__dict__.items() if isinstance(v, (int, float, str, bool, type(None)))}
-                if d1 != d2 or set(env.__dict__) != set(env2.__dict__):
-                    V(ctx, f"env-{how}-attributes", "attribute dictionary of the copy differs", {"env": name, "orig": str(d1)[:200], "copy": str(d2)[:200]})
+                # `state = self.__dict__.copy()`: EVERY attribute is state — compared recursively (tensors by value, objects by type + __dict__)
+                dd = deep_diff(env.__dict__, env2.__dict__, skip=("rng",))
+                if dd:
+                    V(ctx, f"env-{how}-attributes", f"attribute dictionary of the copy differs at {dd}", {"env": name, "generator_params": gp})
                 ga = {k: v for k, v in env.generator.__dict__.items() if isinstance(v, (int, float, str, bool, type(None)))}
                 gb = {k: v for k, v in env2.generator.__dict__.items() if isinstance(v, (int, float, str, bool, type(None)))}
                 if ga != gb:
@@ -2233,7 +2359,7 @@ PARAM_NOTE = ("range / well-formedness theorems hold under explicit parameter co
 T = Theorem
 P18 = "Rl4co.Props.C18."
 
-register(Unit("C18", "gen_routing", run_routing, drivers=["drv_gen"], lean_modules=[P18 + "Tables", P18 + "Routing"],
+register(Unit("C18", "gen_routing", run_routing, drivers=["drv_gen"], lean_modules=[P18 + "Tables", P18 + "Routing", P18 + "SpecSanity"],
               theorems=[
                   T("Rl4co.Gen.tblLookup_mem", "proved", "for every size, on or off the table, the nearest-key fallback returns a value of the table"),
                   T("Rl4co.Gen.tblLookup_isSome", "proved", "a non-empty table always yields a value"),
@@ -2253,12 +2379,14 @@ register(Unit("C18", "gen_routing", run_routing, drivers=["drv_gen"], lean_modul
                   T("Rl4co.Gen.op_prize_total", "proved", "every documented prize type (const, unif, dist) yields prizes in [0.01, 1] for every admissible draw (fixed upstream a68723b)"),
                   T("Rl4co.Gen.pdp_even", "proved", "PDP/MDCPDP: emitted num_loc is even, n ≤ · ≤ n+1"),
                   T("Rl4co.Gen.pdp_pairing", "proved", "pickup i ↦ delivery i+N/2 is a bijection {1..N/2} → {N/2+1..N}"),
+                  T("Rl4co.Gen.source_forms", "proved", "decide: the source forms the models take for granted (MCP mask width, ATSP loop bounds, centre formula, "
+                                                          "per-row loader divisor, CVRPTW repair offsets, FJSP spread) as regenerated from the sources"),
               ],
               assumptions=[GEN_NOTE, PARAM_NOTE,
                            "special samplers (cluster, mixed, gaussian mixture …) and mTSP/MDCPDP/FFSP/SMTWTP/FLP ranges: correspondence + sampled ranges only; "
                            "the special samplers are defined on the unit square whatever min_loc/max_loc say and are checked against [0,1] for every generator that "
                            "takes loc_distribution, with the Gaussian draws steered ±6…±40 σ into the tails (Tape.tail) instead of i.i.d. sampling"]))
-register(Unit("C18", "gen_tw", run_tw, drivers=["drv_gen"], lean_modules=[P18 + "Cvrptw", P18 + "Mtvrp", P18 + "Tables"],
+register(Unit("C18", "gen_tw", run_tw, drivers=["drv_gen"], lean_modules=[P18 + "Cvrptw", P18 + "Mtvrp", P18 + "Tables", P18 + "SpecSanity", P18 + "MtvrpGenerated"],
               theorems=[
                   T("Rl4co.Gen.Cvrptw.cvrptw_window", "proved", "steps 4–7: window ordered, ≥ 0, reachable from the depot, leaves time to return, for all draws (2·dist+1 ≤ max_time, durations 0)"),
                   T("Rl4co.Gen.Cvrptw.cvrptw_assert", "proved", "the generator's final `min_times < max_times` assertion cannot fire under the same conditions"),
@@ -2266,6 +2394,9 @@ register(Unit("C18", "gen_tw", run_tw, drivers=["drv_gen"], lean_modules=[P18 + 
                   T("Rl4co.Gen.cvrptw_defaults_room", "proved", "decide: 8(max_loc−min_loc)² ≤ (max_time−1)² on the regenerated defaults"),
                   T("Rl4co.Gen.Mtvrp.mtvrp_window", "proved", "MTVRP: d/v ≤ start < end and end + service + d/v ≤ max_time for all draws (rational arithmetic)"),
                   T("Rl4co.Gen.Mtvrp.twStart_eq", "proved", "closed form tw_start = d/v + u·(max_time − service − length − 2d/v)"),
+                  T("Rl4co.Gen.Mtvrp.twGen_eq", "proved", "translator tie: the statement-level translation of generate_time_windows (regenerated each run) is the model (rfl)"),
+                  T("Rl4co.Gen.Mtvrp.mtvrp_window_generated", "proved", "the window theorem restated on the generated definition"),
+                  T("Rl4co.Gen.Mtvrp.consts_agree", "proved", "decide: the translated constants equal the token-probe constants"),
                   T("Rl4co.Gen.Mtvrp.room_of_box", "proved", "coordinates in the box + 8L² ≤ v²(T−b−c)² ⇒ room condition"),
                   T("Rl4co.Gen.Mtvrp.limit_of_box", "proved", "coordinates in the box + 8L² < limit² ⇒ the distance-limit assertion passes"),
                   T("Rl4co.Gen.mtvrp_defaults", "proved", "decide: constants ordered, defaults satisfy both box conditions, demands ≤ 30"),
@@ -2274,19 +2405,24 @@ register(Unit("C18", "gen_tw", run_tw, drivers=["drv_gen"], lean_modules=[P18 + 
                   T("Rl4co.Gen.preset_consistent", "proved", "decide over the regenerated VARIANT_GENERATION_PRESETS: key order O,TW,L,B; every named preset enables exactly the features in its name; cvrp/single_feat/single_feat_otw supports"),
                   T("Rl4co.Gen.preset_complete", "proved", "all 16 feature combinations have their named preset"),
                   T("Rl4co.Gen.Mtvrp.named_preset_features", "proved", "instance features after subsample_problems = those spelled by the preset name"),
+                  T("Rl4co.Gen.Cvrptw.windowOk_trip", "proved", "spec sanity: WindowOk ⇒ the out-and-back trip is feasible (service start max(dist, lo) inside the window, back by max_time)"),
+                  T("Rl4co.Gen.Cvrptw.windowOk_mono_T", "proved", "spec sanity: WindowOk is monotone in max_time"),
+                  T("Rl4co.Gen.Cvrptw.windowOk_mono_d", "proved", "spec sanity: WindowOk is monotone (downwards) in the distance"),
+                  T("Rl4co.Gen.Mtvrp.variantName_injective", "proved", "spec sanity: a variant name determines its feature set"),
               ],
               assumptions=[GEN_NOTE, PARAM_NOTE, "MTVRP window arithmetic uses non-dyadic constants: model (exact rationals) vs float32 code compared to 2e-5 relative",
                            "MTVRP: a customer located exactly at the depot (d = 0) divides by zero in the code (NaN windows); excluded by hypothesis 0 < d, probability ~2^-48 per customer"]))
-register(Unit("C18", "gen_atsp", run_atsp, drivers=["drv_gen"], lean_modules=[P18 + "Atsp", P18 + "Tables"],
+register(Unit("C18", "gen_atsp", run_atsp, drivers=["drv_gen"], lean_modules=[P18 + "Atsp", P18 + "Tables", P18 + "SpecSanity"],
               theorems=[
                   T("Rl4co.Gen.Atsp.atsp_triangle", "proved", "the coded single-pass min-plus loop gives D a c ≤ D a b + D b c for all a, c and every b < n (non-negative raw entries)"),
                   T("Rl4co.Gen.Atsp.atsp_diag", "proved", "zero diagonal"),
                   T("Rl4co.Gen.Atsp.atsp_nonneg", "proved", "non-negative entries"),
                   T("Rl4co.Gen.Atsp.closure_le", "proved", "entries never grow (≤ max_dist)"),
                   T("Rl4co.Gen.atsp_mcp_defaults", "proved", "decide: 0 ≤ min_dist ≤ max_dist on the regenerated defaults"),
+                  T("Rl4co.Gen.Atsp.triangleOk_iff", "proved", "spec sanity: the executable triangle oracle is exactly the triangle inequality on the first n indices"),
               ],
               assumptions=[GEN_NOTE, "float32 additions inside the loop can break the exact triangle inequality by rounding: sampled with tolerance 1e-6, slack below it is counted"]))
-register(Unit("C18", "gen_sched", run_sched, drivers=["drv_gen"], lean_modules=[P18 + "Sched", P18 + "Tables"],
+register(Unit("C18", "gen_sched", run_sched, drivers=["drv_gen"], lean_modules=[P18 + "Sched", P18 + "Tables", P18 + "SpecSanity"],
               theorems=[
                   T("Rl4co.Gen.Sched.fjsp_proc_range", "proved", "FJSP processing time ∈ [min_pt, max_pt] and > 0 for every raw draw"),
                   T("Rl4co.Gen.Sched.fjsp_operation_eligible", "proved", "every real FJSP operation has ≥ 1 machine with positive time (same_mean_per_op)"),
@@ -2294,6 +2430,8 @@ register(Unit("C18", "gen_sched", run_sched, drivers=["drv_gen"], lean_modules=[
                   T("Rl4co.Gen.Sched.jssp_operation_eligible", "proved", "a JSSP operation runs on its machine with positive time and on no other"),
                   T("Rl4co.Gen.Sched.op_index", "proved", "start/end op ids: start_j = Σ_{i<j} n_i, end_j = Σ_{i≤j} n_i − 1"),
                   T("Rl4co.Gen.sched_defaults", "proved", "decide: default FJSP/JSSP parameters satisfy the conditions"),
+                  T("Rl4co.Gen.Sched.columnsOk_iff", "proved", "spec sanity: ColumnsOk ⇔ every non-padded operation has a machine with positive time"),
+                  T("Rl4co.Gen.Sched.numEligible_pos_iff", "proved", "spec sanity: numEligible ≥ 1 ⇔ some entry is positive"),
               ],
               assumptions=[GEN_NOTE, PARAM_NOTE, "argsort of the shuffling draws is an input permutation (ties outside the model)"]))
 register(Unit("C18", "gen_mcp", run_mcp, drivers=["drv_gen"], lean_modules=[P18 + "Routing"],
@@ -2303,8 +2441,16 @@ register(Unit("C18", "gen_mcp", run_mcp, drivers=["drv_gen"], lean_modules=[P18 
                   T("Rl4co.Gen.removeRepeat_nodup", "proved", "no item listed twice in a membership row"),
               ],
               assumptions=[GEN_NOTE, "membership rows compared as multisets (torch.sort stability is outside the model)"]))
-register(Unit("C18", "gen_solvable", run_solvable, drivers=["drv_gen"], lean_modules=[P18 + "Routing"],
-              theorems=[T("Rl4co.Gen.gen_wf_cvrp", "proved", "gen_solvable = gen_wf ∘ C02 for CVRP: generated instances satisfy the WF of Rl4co.Cvrp.steps_le")],
+register(Unit("C18", "gen_solvable", run_solvable, drivers=["drv_gen"], lean_modules=[P18 + "Routing", P18 + "GenWf"],
+              theorems=[T("Rl4co.Gen.gen_wf_cvrp", "proved", "gen_solvable = gen_wf ∘ C02 for CVRP: generated instances satisfy the WF of Rl4co.Cvrp.steps_le"),
+                        T("Rl4co.Gen.gen_wf_sdvrp", "proved", "generated SDVRP instances satisfy Sdvrp.WFpos (positive capacity, positive demands)"),
+                        T("Rl4co.Gen.gen_steps_le_sdvrp", "proved", "generated ⇒ WF ⇒ the SDVRP C02 step bound"),
+                        T("Rl4co.Gen.gen_wf_mtsp", "proved", "generated mTSP instances satisfy Mtsp.WF for every integer draw of num_agents"),
+                        T("Rl4co.Gen.mtsp_agents_range", "proved", "num_agents ∈ [min_num_agents, max_num_agents]"),
+                        T("Rl4co.Gen.gen_steps_le_mtsp", "proved", "generated ⇒ WF ⇒ at most num_loc + num_agents − 2 steps"),
+                        T("Rl4co.Gen.gen_wf_pdp", "proved", "emitted num_loc = 2·(number of pairs) and Pdp.WF"),
+                        T("Rl4co.Gen.gen_wf_ffsp", "proved", "generated FFSP instances satisfy Ffsp.WF (durations below the sentinel for every draw)"),
+                        T("Rl4co.Gen.gen_steps_le_ffsp", "proved", "generated ⇒ WF ⇒ the FFSP C02 step bound")],
               assumptions=["sampled: every environment's bundled generator, mask-confined episodes under three action policies with the "
                            "harness' own loop; the universally quantified termination statements are the C02 theorems of the environment families",
                            "a batched episode that fails while every instance completes solo is counted as batch-only (C02/C04), not as unsolvable"]))
@@ -2328,11 +2474,18 @@ register(Unit("C19", "gen_npz", run_npz, drivers=["drv_gen"], lean_modules=[P19,
                   T("Rl4co.Gen.data_capacities_cover", "proved", "decide: every capacity of generate_vrp_data's table ≥ 9"),
                   T("Rl4co.Gen.Persist.load_after_generator_counterexample", "proved", "¬(generator batch → save → env loader is the identity): the loader divides again (known finding)"),
                   T("Rl4co.Gen.Persist.load_after_generator_partial", "partial", "identity when the capacity is 1"),
+                  T("Rl4co.Gen.Persist.load_data_per_row", "proved", "a dataset file with one capacity per row: every row is divided by its own capacity (extracted divisor form)"),
+                  T("Rl4co.Gen.Persist.npz_load_save", "proved", "container model: load_npz_to_tensordict (save_tensordict_to_npz td) = td (keys in order, dtype/shape tags, contents, batch size), "
+                                                                   "given the stated numpy Codec"),
+                  T("Rl4co.Gen.Persist.npzBatch_of_uniform", "proved", "the batch size re-derived from the first key equals the common leading dimension"),
               ],
               assumptions=[PERSIST_NOTE]))
 register(Unit("C19", "gen_pickle", run_pickle, drivers=["drv_gen"], lean_modules=[P19],
-              theorems=[T("Rl4co.Gen.Persist.setstate_getstate", "proved", "__setstate__ ∘ __getstate__ = id on the attribute record incl. the generator state")],
-              assumptions=[PERSIST_NOTE, "env.rng is torch's global default generator (torch.manual_seed returns it): unpickling rewinds the global RNG — counted, not a violation of C19"]))
+              theorems=[T("Rl4co.Gen.Persist.setstate_getstate", "proved", "__setstate__ ∘ __getstate__ = id on the attribute record incl. the generator state"),
+                        T("Rl4co.Gen.Persist.setstate_getstate_extracted", "proved", "same with the three statements found in the source as parameters (each is needed); "
+                                                                                      "the state is the whole __dict__")],
+              assumptions=[PERSIST_NOTE, "every attribute of env.__dict__ is state (`state = self.__dict__.copy()`): the copy's attributes are compared recursively "
+                           "(tensors by value, objects by type and __dict__)", "env.rng is torch's global default generator (torch.manual_seed returns it): unpickling rewinds the global RNG — counted, not a violation of C19"]))
 register(Unit("C19", "gen_ckpt", run_ckpt, drivers=["drv_gen"], lean_modules=[P19],
               theorems=[], assumptions=[PERSIST_NOTE, "checkpoints: tiny AttentionModel (embed 16, 1 layer), CPU, 2–3 epochs of 16 instances, tmp dir removed; "
                                         "no theorem: correspondence only. Baselines no / exponential / rollout (bl_alpha=0: saved baseline policy ≠ actor) / critic / "
